@@ -6,6 +6,7 @@ import (
 	"fmt"
 	"math/rand"
 	"os"
+	"runtime"
 	"sort"
 )
 
@@ -87,6 +88,7 @@ type WalkReport struct {
 	Steps         int        `json:"steps"`
 	Resets        int        `json:"resets"`
 	RandomWalks   int        `json:"random_walks"`
+	Restarts      int        `json:"process_restarts"`
 	Mismatches    []Mismatch `json:"mismatches"`
 	Samples       [][]Ev     `json:"samples"`
 }
@@ -210,9 +212,62 @@ func (w *walker) nearest(from string) (route []string, target string, stim strin
 	return nil, "", "", false
 }
 
+// WalkState is what survives a restart of the walker process (see MaxGoroutines).
+type WalkState struct {
+	Covered   []int           `json:"covered"`
+	Tries     map[string]int  `json:"tries"`
+	Bad       map[string]bool `json:"bad"`
+	Rep       *WalkReport     `json:"rep"`
+	InitIdx   int             `json:"init_idx"`
+	WalksDone int             `json:"walks_done"`
+	Restarts  int             `json:"restarts"`
+	Done      bool            `json:"done"`
+
+	canRestart bool
+}
+
+// AllowRestart marks that a wrapper process will continue the walk in a fresh process.
+func (st *WalkState) AllowRestart() { st.canRestart = true }
+
+// MaxGoroutines: when abandoned objects have left more than this many parked goroutines behind,
+// the walker stops at the next reset and asks to be continued in a fresh process (stack dumps of
+// the whole process, which quiescence detection needs, get slow otherwise).
+var MaxGoroutines = 120
+
 // Walk performs the adaptive transition tour followed by `walks` random walks of length `depth`.
 func Walk(name string, sut SUT, lts *LTS, seed int64, walks, depth, maxMismatch int) *WalkReport {
-	rep := &WalkReport{Sut: name, Edges: len(lts.Edges)}
+	st := &WalkState{}
+	for {
+		WalkResume(name, sut, lts, seed, walks, depth, maxMismatch, st)
+		if st.Done {
+			return st.Rep
+		}
+		// in-process continuation is only used when no restart wrapper is active
+	}
+}
+
+// WalkResume continues the tour described by st; returns with st.Done=false when it wants a fresh process.
+func WalkResume(name string, sut SUT, lts *LTS, seed int64, walks, depth, maxMismatch int, st *WalkState) {
+	rep := st.Rep
+	if rep == nil {
+		rep = &WalkReport{Sut: name, Edges: len(lts.Edges)}
+		st.Rep = rep
+		st.Tries, st.Bad = map[string]int{}, map[string]bool{}
+	}
+	for _, i := range st.Covered {
+		lts.Edges[i].covered = true
+	}
+	giveUp := func() bool { return st.canRestart && runtime.NumGoroutine() > MaxGoroutines }
+	save := func() {
+		st.Covered = st.Covered[:0]
+		for i, e := range lts.Edges {
+			if e.covered {
+				st.Covered = append(st.Covered, i)
+			}
+		}
+		st.Restarts++
+	}
+	rep.Groups = 0
 	states := map[string]bool{}
 	for _, e := range lts.Edges {
 		states[e.From], states[e.To] = true, true
@@ -221,16 +276,24 @@ func Walk(name string, sut SUT, lts *LTS, seed int64, walks, depth, maxMismatch 
 	for _, g := range lts.Group {
 		rep.Groups += len(g)
 	}
-	w := &walker{lts: lts, sut: sut, name: name, rep: rep, tries: map[string]int{}, rng: rand.New(rand.NewSource(seed)),
-		maxMis: maxMismatch, badEdge: map[string]bool{}}
+	w := &walker{lts: lts, sut: sut, name: name, rep: rep, tries: st.Tries, rng: rand.New(rand.NewSource(seed + int64(st.Restarts)*7919)),
+		maxMis: maxMismatch, badEdge: st.Bad}
 	inits := make([]string, 0, len(lts.Inits))
 	for k := range lts.Inits {
 		inits = append(inits, k)
 	}
 	sort.Strings(inits)
-	for _, init := range inits {
+	for ii, init := range inits {
+		if ii < st.InitIdx {
+			continue
+		}
+		st.InitIdx = ii
 		w.reset(init)
 		for guard := 0; guard < 50_000_000; guard++ {
+			if len(w.path) == 1 && giveUp() {
+				save()
+				return
+			}
 			route, _, stim, ok := w.nearest(w.cur)
 			if !ok {
 				if w.cur == init && len(w.path) == 1 {
@@ -266,7 +329,13 @@ func Walk(name string, sut SUT, lts *LTS, seed int64, walks, depth, maxMismatch 
 		}
 	}
 	// random walks (deeper mixes of the same edges)
-	for i := 0; i < walks && len(inits) > 0; i++ {
+	st.InitIdx = len(inits)
+	for i := st.WalksDone; i < walks && len(inits) > 0; i++ {
+		if giveUp() {
+			save()
+			return
+		}
+		st.WalksDone = i + 1
 		init := inits[w.rng.Intn(len(inits))]
 		w.reset(init)
 		rep.RandomWalks++
@@ -290,6 +359,8 @@ func Walk(name string, sut SUT, lts *LTS, seed int64, walks, depth, maxMismatch 
 			}
 		}
 	}
+	rep.GroupsCovered = 0
+	st.Done = true
 	for s, g := range lts.Group {
 		for k, es := range g {
 			if w.badEdge[s+"|"+k] {
@@ -303,7 +374,6 @@ func Walk(name string, sut SUT, lts *LTS, seed int64, walks, depth, maxMismatch 
 			}
 		}
 	}
-	return rep
 }
 
 // ReplayPath re-applies the stimuli of a recorded mismatch on a fresh real object.
